@@ -343,7 +343,16 @@ def check(run: Run):
                 off_by_rounding += 1
             if not (frac(fr) * n_iter - 1 - frac(2) ** -40 * n_iter < nb <= frac(fr) * n_iter * (1 + frac(2) ** -52)):
                 run.fail("n-burn-fraction", "memory-less length is not the configured fraction of the iterations (beyond float rounding)", nmeta[-1])
-    for n_iter, nbx, fr in [(10, 3, 0.9), (10, 0, 0.9), (7, 7, None), (5, 9, None), (10, 0, None), (10, 1, 0.0), (12, 0, 0.5)]:
+    # explicit counts on longer runs too: a count is an integer and must be kept as given, whatever n_iter (a count that goes
+    # through a float — count / n_iter * n_iter — loses one for e.g. 29 of 100, 57 of 200, the odd counts above 1000 of 2000)
+    explicit = [(10, 3, 0.9), (10, 0, 0.9), (7, 7, None), (5, 9, None), (10, 0, None), (10, 1, 0.0), (12, 0, 0.5)]
+    explicit += [(n, c, None) for n in (50, 100, 200) for c in range(0, n + 1, 1 if (thorough or n == 100) else 3)]
+    explicit += [(100, c, fr) for c in (29, 57, 58) for fr in (0.9, 0.5)]
+    explicit += [(2000, c, None) for c in range(997, 1027, 1 if thorough else 2)]
+    rng_x = run.rng("explicit-counts")
+    explicit += [(10000, rng_x.randrange(0, 10001), None) for _ in range(300 if thorough else 60)]
+    explicit += [(n, rng_x.randrange(0, n + 1), None) for n in (37, 64, 123, 365, 999, 1000, 4096) for _ in range(8)]
+    for n_iter, nbx, fr in explicit:
         run.case(("nburn-explicit", n_iter, nbx, fr))
         try:
             algo = make_algo(n_iter, n_burn=nbx, frac_=fr)
